@@ -252,6 +252,24 @@ fn dispatch(cmd: &str, a: &[&str]) -> Result<Vec<String>, String> {
             Ok(vec![hex(if got == expect { b"same" } else { b"differs" }), hex(text.as_bytes()), hex(format!("{:?}", got).as_bytes())])
         }
         "mime" => { Ok(vec![hex(crate::mime_type::MimeType::detect_mime_type(&ustr(a[0])).as_bytes())]) }
+        "response_multipart_roundtrip" => {
+            use crate::response::Response;
+            let ser = ustr(a[0]);
+            let mut crs = vec![]; let mut off: u64 = 0;
+            let size: usize = a[1..].iter().map(|p| unhex(p).len()).sum::<usize>() + 1;
+            for (i, p) in a[1..].iter().enumerate() {
+                let b = unhex(p); let l = std::cmp::max(b.len(), 1) as u64;
+                crs.push(crate::range::ContentRange { unit: "bytes".to_string(), range: crate::range::Range { start: off, end: off + l - 1 }, size: size.to_string(), body: b, content_type: format!("t/{}", i) });
+                off += l;
+            }
+            let mut resp = Response { http_version: "HTTP/1.1".to_string(), status_code: 206, reason_phrase: "Partial Content".to_string(), headers: vec![], content_range_list: crs };
+            let raw = if ser == "generate" { resp.generate() } else {
+                let req = Request { method: "GET".to_string(), request_uri: "/".to_string(), http_version: "HTTP/1.1".to_string(), headers: vec![], body: vec![] };
+                Response::generate_response(resp, req)
+            };
+            let back = Response::parse(&raw)?;
+            Ok(back.content_range_list.iter().map(|c| hex(&c.body)).collect())
+        }
         "uri_roundtrip" => {
             let t = ustr(a[0]);
             let enc = crate::url::URL::percent_encode(&t);
@@ -262,7 +280,12 @@ fn dispatch(cmd: &str, a: &[&str]) -> Result<Vec<String>, String> {
             let mut m = std::collections::HashMap::new();
             m.insert(ustr(a[1]), ustr(a[2]));
             let q = crate::url::URL::build_query(m);
-            let parsed = if ustr(a[0]) == "form" { crate::body::form_urlencoded::FormUrlEncoded::parse(q.as_bytes().to_vec())? } else { crate::url::URL::parse_query(&q) };
+            let parsed = if ustr(a[0]) == "form" { crate::body::form_urlencoded::FormUrlEncoded::parse(q.as_bytes().to_vec())? }
+                else if ustr(a[0]) == "target" {
+                    let rq = Request { method: "GET".to_string(), request_uri: format!("/form-get-method?{}", q), http_version: "HTTP/1.1".to_string(), headers: vec![], body: vec![] };
+                    match rq.get_uri_query()? { Some(m) => m, None => return Err("no query".to_string()) }
+                }
+                else { crate::url::URL::parse_query(&q) };
             let mut out = vec![hex(q.as_bytes())];
             for (k, v) in parsed { out.push(hex(k.as_bytes())); out.push(hex(v.as_bytes())); }
             Ok(out)
@@ -308,6 +331,29 @@ fn dispatch(cmd: &str, a: &[&str]) -> Result<Vec<String>, String> {
             unsafe { setrlimit(7, &old); }
             std::thread::sleep(std::time::Duration::from_millis(300));
             Ok(vec![hex(if returned.load(Ordering::SeqCst) { b"returned" } else { b"running" })])
+        }
+        "job_reset" => {
+            // Server::run with ONE worker on loopback; hostile peers: (1) connect and reset without sending, (2) send half a request
+            // and reset, (3) connect and close at once.  Then a well-formed probe request.  Reply: "answered" | "dead".
+            use std::io::{Read, Write};
+            use std::os::unix::io::AsRawFd;
+            #[repr(C)] struct Linger { l_onoff: i32, l_linger: i32 }
+            extern "C" { fn setsockopt(fd: i32, level: i32, name: i32, value: *const Linger, len: u32) -> i32; }
+            fn reset_on_close(s: &std::net::TcpStream) { let l = Linger { l_onoff: 1, l_linger: 0 }; unsafe { setsockopt(s.as_raw_fd(), 1, 13, &l, 8); } }
+            let listener = std::net::TcpListener::bind("127.0.0.1:0").map_err(|e| e.to_string())?;
+            let addr = listener.local_addr().unwrap();
+            let pool = crate::thread_pool::ThreadPool::new(1);
+            std::thread::spawn(move || { crate::server::Server::run(listener, pool, crate::app::App {}); });
+            let ms = |n| std::thread::sleep(std::time::Duration::from_millis(n));
+            { let c = std::net::TcpStream::connect(addr).map_err(|e| e.to_string())?; reset_on_close(&c); drop(c); ms(300); }
+            { let mut c = std::net::TcpStream::connect(addr).map_err(|e| e.to_string())?; let _ = c.write_all(b"GET / HT"); reset_on_close(&c); drop(c); ms(300); }
+            { let c = std::net::TcpStream::connect(addr).map_err(|e| e.to_string())?; drop(c); ms(300); }
+            let mut c = std::net::TcpStream::connect(addr).map_err(|e| e.to_string())?;
+            c.set_read_timeout(Some(std::time::Duration::from_secs(4))).unwrap();
+            let _ = c.write_all(b"GET /nothing-here HTTP/1.1\r\nHost: x\r\n\r\n");
+            let mut buf = [0u8; 16];
+            let n = c.read(&mut buf).unwrap_or(0);
+            Ok(vec![hex(if n > 0 { b"answered" } else { b"dead" })])
         }
         "range_parse" => {
             // path, file length (decimal), Range header value -> per part: start end size body
